@@ -92,7 +92,13 @@ let run_acc toks =
   let pend = List.concat_map (fun nd -> pending nd.st) (Array.to_list nodes) in
   let all = List.map (fun (t, o) -> (int_of_n t, outcome_name o)) dones
             @ List.map (fun t -> (int_of_n t, "silent")) pend in
-  let all = List.sort compare all in
+  let locals = List.filter_map (fun ev ->
+      if starts_with "sloc" ev then begin
+        let body = after "sloc" ev in
+        let i = String.index body '=' in
+        Some (int_of_string (String.sub body 0 i), "rep" ^ String.sub body (i + 1) (String.length body - i - 1))
+      end else None) !sess in
+  let all = List.sort compare (all @ locals) in
   let phase_bad = List.exists (fun nd -> not (phases_ok (nat_of_int 0) (List.rev nd.evs))) (Array.to_list nodes) in
   let head = match !reject with
     | Some r -> r
@@ -105,6 +111,12 @@ let run_acc toks =
     else begin
       let evs = List.concat_map (fun ev ->
           if starts_with "sreq" ev then [SReq (n_of_decstr (after "sreq" ev)); SPoll]
+          else if starts_with "sloc" ev then begin
+            (* answered by the session's command handler itself: the future is ready when it is pushed *)
+            let body = after "sloc" ev in
+            let i = String.index body '=' in
+            [SDone (n_of_decstr (String.sub body 0 i), ORep (n_of_decstr (String.sub body (i + 1) (String.length body - i - 1)))); SPoll]
+          end
           else if starts_with "sdone" ev then begin
             let body = after "sdone" ev in
             let i = String.index body '=' in
